@@ -5,6 +5,7 @@ import (
 	"flag"
 	"fmt"
 	"os"
+	"os/exec"
 	"path/filepath"
 	"sort"
 	"strconv"
@@ -37,7 +38,20 @@ func main() {
 	repo := flag.String("repo", "", "module directory to analyse (default $VERIF_REPO or /repo/v4)")
 	evdir := flag.String("evidence", "", "evidence directory (default <verif>/evidence)")
 	verbose := flag.Bool("v", false, "print every obligation")
+	describe := flag.Bool("describe", false, "print what every registered check decides (markdown) and exit")
 	flag.Parse()
+	if *describe {
+		var ids []string
+		for id := range registry {
+			ids = append(ids, id)
+		}
+		sort.Strings(ids)
+		for _, id := range ids {
+			p := registry[id]
+			fmt.Printf("### %s\n\n*Engines:* %s\n\n*Decided:* %s\n\n*Not decided:* %s\n\n", id, p.Engines, p.Decided, p.NotDecided)
+		}
+		return
+	}
 
 	if t := os.Getenv("VERIF_TIER"); t != "" && *tier == "quick" {
 		if t == "thorough" {
@@ -150,7 +164,13 @@ func main() {
 			}
 			continue
 		}
-		if err := writeEvidence(*evdir, p, r, *tier, seed, wall, ctx, nil); err != nil {
+		var extra map[string]any
+		if *tier == "thorough" && explainKeys == nil {
+			extra = thoroughExtras(vdir, root, id, p, r)
+			wall = time.Since(t0).Seconds() + loadS
+			n, okN, viol, und, vac, known = r.tally()
+		}
+		if err := writeEvidence(*evdir, p, r, *tier, seed, wall, ctx, extra); err != nil {
 			fmt.Println("cannot write evidence:", err)
 			os.Exit(2)
 		}
@@ -178,4 +198,52 @@ func main() {
 		}
 	}
 	os.Exit(exit)
+}
+
+// thoroughExtras: (a) the same rules once more on a load with the build tag
+// `verif` (files hidden behind the guard tag are analysed too; any obligation
+// that is not discharged there is added to the run), (b) the checker self-test
+// for this property (evidence only: it never changes the exit code).
+func thoroughExtras(vdir, root, id string, p *propInfo, r *Rec) map[string]any {
+	extra := map[string]any{}
+	if tctx, err := loadRepo(root, "verif", "thorough"); err != nil {
+		r.undecided("load", "repository(tags=verif)", "", err.Error())
+	} else {
+		tr := newRec(id)
+		func() {
+			defer func() {
+				if e := recover(); e != nil {
+					tr.undecided("internal", "checker-panic(tags=verif)", "", fmt.Sprint(e))
+				}
+			}()
+			p.Run(tctx, tr)
+		}()
+		tr.applyFloors()
+		have := map[string]bool{}
+		for _, o := range r.Obls {
+			have[o.Key()+o.Status] = true
+		}
+		added := 0
+		for _, o := range tr.Obls {
+			if o.Status != stOK && !have[o.Key()+o.Status] {
+				o.Construct = "tags=verif/" + o.Construct
+				r.Obls = append(r.Obls, o)
+				added++
+			}
+		}
+		extra["tagged_load"] = map[string]any{"tags": "verif", "files": tctx.NFiles, "obligations": len(tr.Obls), "additional_findings": added}
+	}
+	cmd := exec.Command("python3", filepath.Join(vdir, "tools", "selftest.py"), id, "--repo", root)
+	out, err := cmd.Output()
+	if err != nil {
+		extra["selftest"] = map[string]any{"error": err.Error()}
+		return extra
+	}
+	var doc map[string]any
+	if err := json.Unmarshal(out, &doc); err != nil {
+		extra["selftest"] = map[string]any{"error": err.Error()}
+		return extra
+	}
+	extra["selftest"] = doc
+	return extra
 }
